@@ -96,7 +96,7 @@ def fold_term(ex, acc, x, step, init, seq, n):
     """Ghost prefix fold: value after folding `step` over the first n elements."""
     closed, params, actuals = close_body(step, [acc, x])
     key = _key("fold", closed, [acc, x], params)
-    name = f"fold#{key}" + ("" if acc.sort() == S.REAL else "s")
+    name = f"fold#{key}" + ("" if acc.sort() == S.REAL else "i" if acc.sort() == S.INT else "s")
     if name not in _FUNCS:
         _FUNCS[name] = z3.Function(name, *[p.sort() for p in params], acc.sort(), S.SEQV, S.INT, acc.sort())
     f = _FUNCS[name]
